@@ -118,7 +118,9 @@ func (r *run) local(a *actor, d *dtState, x api, e Ev) {
 	}
 	d.nLocal++
 	d.nLocalSinceOpen++
-	r.logf("%s %s.%s %s %v -> err=%v view=%s", a.name, d.key, e.Op, e.K, kernel.Canon(e.V), err, clip(r.viewOf(d), 200))
+	if r.verbose && !r.inTx {
+		r.logf("%s %s.%s %s %v -> err=%v view=%s", a.name, d.key, e.Op, e.K, kernel.Canon(e.V), err, clip(r.viewOf(d), 200))
+	}
 }
 
 func (r *run) docOp(doc orda.DocumentInTx, e Ev) error {
@@ -183,6 +185,8 @@ type bodyErr struct{}
 func (bodyErr) Error() string { return "body says no" }
 
 func (r *run) tx(a *actor, d *dtState, e Ev) {
+	r.inTx = true
+	defer func() { r.inTx = false }()
 	body := func(x api) error {
 		for _, b := range e.Body {
 			r.local(a, d, x, b)
